@@ -441,9 +441,16 @@ let run_lr tk =
 let run_spellings () =
   L.iter (fun (r, _) -> if SpecLex.star_free r then L.iter (fun w -> pr "%s " (hexs w)) (SpecLex.lang r)) Gen_Lexer.rules
 
+(* the scanner of the DOCUMENTED token table (SpecLex.spec_rules), not of the rule list translated from lexer.l *)
+let run_scanspec tk =
+  let (main, files) = read_files tk in
+  let (toks, errs) = get (Scan.scan SpecLex.spec_rules files main) in
+  print_tokens toks; print_perrs errs
+
 let run_case tk =
   match next tk with
   | "spellings" -> run_spellings ()
+  | "scanspec" -> run_scanspec tk
   | "extract" -> run_extract tk
   | "parse" -> run_parse tk
   | "compile" -> run_compile tk
